@@ -5,6 +5,7 @@ import (
 	"go/ast"
 	"go/token"
 	"go/types"
+	"sort"
 	"strings"
 
 	"golang.org/x/tools/go/ssa"
@@ -15,7 +16,10 @@ import (
 func init() {
 	reg("R15", func(c *core.Ctx) { r15MapOrder(c, "R15", "snap.SnapPolygon", 9) })
 	reg("R15p", func(c *core.Ctx) { r15MapOrder(c, "R15p", "processing.ProcessFeatures", 6) })
-	reg("R15j", func(c *core.Ctx) { r15MapOrder(c, "R15j", "tms20.TileMatrixSet.MarshalJSON", 1) })
+	reg("R15j", func(c *core.Ctx) {
+		r15MapOrder(c, "R15j", "tms20.TileMatrixSet.MarshalJSON", 1)
+		r15IdentityFields(c, "R15j")
+	})
 	reg("R16", r16NoNondeterminism)
 }
 
@@ -599,6 +603,66 @@ func isConstLike(v ssa.Value) bool {
 	return false
 }
 
+// identityFields: struct fields that identify an element among the elements of the collection that is sorted.
+// One line of reason each; the reason is itself an obligation (R15j/identity-field-is-map-key).
+var identityFields = map[string]string{
+	"tms20.TileMatrix.ID": "TileMatrixSet.TileMatrices holds each matrix under the integer its ID parses to (unmarshalTileMatrices), so IDs of distinct map elements parse to distinct integers",
+}
+
+// fieldsCompared lists the struct fields (pkg.Type.field) whose values feed v through comparisons, conversions,
+// calls and tuple extraction.
+func fieldsCompared(v ssa.Value) []string {
+	out := map[string]bool{}
+	seen := map[ssa.Value]bool{}
+	var walk func(v ssa.Value)
+	walk = func(v ssa.Value) {
+		if v == nil || seen[v] {
+			return
+		}
+		seen[v] = true
+		name := func(t types.Type, idx int) {
+			if p, ok := t.Underlying().(*types.Pointer); ok {
+				t = p.Elem()
+			}
+			if st, ok := t.Underlying().(*types.Struct); ok && idx < st.NumFields() {
+				out[core.TypeShort(t)+"."+st.Field(idx).Name()] = true
+			}
+		}
+		switch x := v.(type) {
+		case *ssa.BinOp:
+			walk(x.X)
+			walk(x.Y)
+		case *ssa.UnOp:
+			walk(x.X)
+		case *ssa.Phi:
+			for _, e := range x.Edges {
+				walk(e)
+			}
+		case *ssa.Extract:
+			walk(x.Tuple)
+		case *ssa.Convert:
+			walk(x.X)
+		case *ssa.ChangeType:
+			walk(x.X)
+		case *ssa.Call:
+			for _, a := range x.Call.Args {
+				walk(a)
+			}
+		case *ssa.Field:
+			name(x.X.Type(), x.Field)
+		case *ssa.FieldAddr:
+			name(x.X.Type(), x.Field)
+		}
+	}
+	walk(v)
+	var l []string
+	for k := range out {
+		l = append(l, k)
+	}
+	sort.Strings(l)
+	return l
+}
+
 // sortMakesOrderDeterministic: sorting distinct map keys by their natural order is deterministic; a custom
 // comparator only if it is a strict total order on the elements — accepted when both operands of its comparison
 // are computed from the two elements without reading another map (a tie between equal sort keys, e.g. areas
@@ -682,10 +746,17 @@ func sortMakesOrderDeterministic(call *ssa.Call) (bool, string) {
 					if r := reads(ret.Results[0], map[ssa.Value]bool{}); r != "" {
 						return false, "the comparator " + r + ": equal sort keys are possible, ties keep the random input order"
 					}
+					// the sort key: the elements themselves, or a field that identifies an element (frozen table);
+					// any other field can tie between distinct elements
+					for _, fld := range fieldsCompared(ret.Results[0]) {
+						if _, ok := identityFields[fld]; !ok {
+							return false, "the comparator orders by field " + fld + ", which does not identify an element: two elements with equal " + fld + " keep the random input order (sort.Slice is not stable either)"
+						}
+					}
 				}
 			}
 		}
-		return true, "custom comparator over the elements themselves (assumed a strict total order on distinct elements)"
+		return true, "custom comparator over the elements themselves or an identity field (a strict total order on distinct elements)"
 	}
 	return false, ""
 }
@@ -1533,4 +1604,57 @@ func r16NoNondeterminism(c *core.Ctx) {
 		}
 	}
 	c.Check(R, "canary/nondet", token.NoPos, hits >= 3, fmt.Sprintf("deny-list fires %d times on the canary package", hits), "deny-list does not fire on the canary package")
+}
+
+// r15IdentityFields discharges the reason behind identityFields["tms20.TileMatrix.ID"]: the only place that fills
+// TileMatrixSet.TileMatrices stores every matrix under the integer parsed from that matrix's own ID.
+func r15IdentityFields(c *core.Ctx, R string) {
+	f := c.Anchor(R, "tms20.unmarshalTileMatrices")
+	if f == nil || f.SSA == nil {
+		return
+	}
+	n, okAll := 0, true
+	for _, b := range f.SSA.Blocks {
+		for _, in := range b.Instrs {
+			mu, ok := in.(*ssa.MapUpdate)
+			if !ok || core.TypeShort(mapElemType(mu.Map.Type())) != "tms20.TileMatrix" {
+				continue
+			}
+			n++
+			// key <- Convert <- Extract#0 <- strconv.ParseInt/Atoi(<load of FieldAddr(X, ID)>) and value = load of X
+			key := mu.Key
+			for {
+				if cv, ok := key.(*ssa.Convert); ok {
+					key = cv.X
+					continue
+				}
+				break
+			}
+			good := false
+			if ex, ok := key.(*ssa.Extract); ok && ex.Index == 0 {
+				if call, ok := ex.Tuple.(*ssa.Call); ok {
+					if id := core.StaticCalleeID(call); id == "strconv.ParseInt" || id == "strconv.Atoi" {
+						if ld, ok := call.Call.Args[0].(*ssa.UnOp); ok {
+							if fa, ok := ld.X.(*ssa.FieldAddr); ok && fieldNameOf(fa.X.Type(), fa.Field) == "ID" {
+								if vl, ok := mu.Value.(*ssa.UnOp); ok && vl.X == fa.X {
+									good = true
+								}
+							}
+						}
+					}
+				}
+			}
+			if !good {
+				okAll = false
+			}
+		}
+	}
+	c.Check(R, "identity-field-is-map-key/tms20.TileMatrix.ID", f.Decl.Pos(), okAll && n >= 1, "every matrix is stored under the integer parsed from its own ID: IDs identify the elements of TileMatrices", "unmarshalTileMatrices no longer stores each matrix under the integer its own ID parses to: sorting the encoded matrices by ID (MarshalJSON) is not known to be a total order any more")
+}
+
+func mapElemType(t types.Type) types.Type {
+	if m, ok := t.Underlying().(*types.Map); ok {
+		return m.Elem()
+	}
+	return types.Typ[types.Invalid]
 }
